@@ -112,6 +112,21 @@ def gen(rng, n_manual, n_auto):
     for _ in range(n_auto):
         c = ctl.gen_scenario(rng, max_lines=5, ctrl="main")
         c["kind"] = "auto"
+        if rng.random() < 0.6:
+            # ICT network in which some sensors / intelligent switches cannot be reached (=> a manual sectioning time runs with
+            # the breaker open), and a second fault in another place while that time is running or just when it runs out
+            from . import c06
+            if F(c["spec"]["ctrl"]["T"]) == 0:
+                c["spec"]["ctrl"]["T"] = "1"
+            c["spec"]["ctrl"]["ict"] = c06.fallible_ict(rng, c["spec"])
+            T = F(c["spec"]["ctrl"]["T"]); dt = F(c["dt"])
+            ps = net.build(c["spec"])
+            names = [l.name for l in ps.lines if not l.is_backup]
+            k1 = rng.randint(1, 3)
+            k2 = k1 + rng.randint(1, math.ceil(T / dt) + 1)
+            c["faults"] = {str(k1): [[rng.choice(names), str(rng.choice([F(3), F(4)]))]], str(k2): [[rng.choice(names), str(rng.choice([F(2), F(3)]))]]}
+            if rng.random() < 0.3:
+                c["faults"].setdefault(str(k2 + rng.randint(1, 3)), []).append([rng.choice(names), "2"])
         cases.append(c)
     return cases
 
@@ -120,7 +135,7 @@ def run(res):
     rng = random.Random(res.seed * 7919 + 67)
     nm, na = (60, 20) if res.tier == "quick" else (1500, 400)
     res.rule = ("1-2 feeders of up to 7 lines with laterals, 0/1/2 disconnectors per line, optional tie and microgrid (all three modes), sectioning time in {0,1/2,1,3/2,2} h, "
-                "steps 1, 1/2, 1/4 h, 1-4 overlapping line faults with repair 1/3..5/2 h at increments 1..12, quiet tail; manual control (model + oracle) and MainController (oracle). "
+                "steps 1, 1/2, 1/4 h, 1-4 overlapping line faults with repair 1/3..5/2 h at increments 1..12, quiet tail; manual control (model + oracle) and MainController (oracle; 60% with an ICT network in which ~20% of the devices are unreachable and a second fault while the manual sectioning time of the first is running). "
                 "non-trivial = distinct set of (open breakers, number of failed lines, normal?) states per run")
     run_cases(res, gen(rng, nm, na), handler, compare)
 
